@@ -198,6 +198,19 @@ func genCPorts(r *Rng) []CPort {
 			}
 		}
 		ps = append(ps, p)
+		// the same number once more, on another protocol and under another name (https 8443/TCP next to quic 8443/UDP)
+		if r.P(12) {
+			other := map[string]string{"TCP": "UDP", "": "UDP", "UDP": "TCP", "SCTP": "TCP"}[p.Proto]
+			q := CPort{Port: p.Port, Proto: other}
+			for _, nm := range portNames {
+				if !used[nm] {
+					used[nm] = true
+					q.Name = nm
+					break
+				}
+			}
+			ps = append(ps, q)
+		}
 	}
 	return ps
 }
